@@ -1,0 +1,81 @@
+//go:build verif
+
+package test
+
+// Hooks for the external verification harness (/verif, property C06). This
+// file is only compiled with `-tags verif`; it adds accessors for unexported
+// state and changes no behaviour of the package.
+
+import (
+	"github.com/9elements/converged-security-suite/v2/pkg/tools"
+	"github.com/9elements/go-linux-lowlevel-hw/pkg/hwapi"
+)
+
+// CheckFuncForVerif is the type of Test.function.
+type CheckFuncForVerif = func(hwapi.LowLevelHardwareInterfaces, *PreSet) (bool, error, error)
+
+// NewTestForVerif builds a Test with a custom check function and dependencies.
+func NewTestForVerif(name string, required bool, status Status, result Result, fn CheckFuncForVerif, deps []*Test) *Test {
+	return &Test{
+		Name:         name,
+		Required:     required,
+		function:     fn,
+		Result:       result,
+		dependencies: deps,
+		Status:       status,
+	}
+}
+
+// SetDepsForVerif replaces the dependency list of a test (used to build graphs
+// whose edges do not follow construction order).
+func SetDepsForVerif(t *Test, deps []*Test) { t.dependencies = deps }
+
+// DepsForVerif returns the dependency list of a test.
+func DepsForVerif(t *Test) []*Test { return t.dependencies }
+
+// WrapCheckForVerif replaces t.function by wrap(t.function); the harness uses
+// it to record every evaluation of a check and what it returned.
+func WrapCheckForVerif(t *Test, wrap func(CheckFuncForVerif) CheckFuncForVerif) {
+	t.function = wrap(t.function)
+}
+
+// ResetStateForVerif clears the package-level caches filled by the checks
+// (FIT pointer/table, TXT register copy, BIOS data region).
+func ResetStateForVerif() {
+	fitPointer = 0
+	fitHeaders = nil
+	txtRegisterValues = nil
+	biosdata = tools.TXTBiosData{}
+}
+
+// ResetTestForVerif puts a test back into the not-run state.
+func ResetTestForVerif(t *Test) {
+	t.Result = ResultNotRun
+	t.ErrorText = ""
+	t.ErrorTextSpec = ""
+}
+
+// AllTestsForVerif lists every test variable of the package that is reachable
+// from the exported suites, including dependencies that are in no suite.
+func AllTestsForVerif() []*Test {
+	seen := map[*Test]bool{}
+	var out []*Test
+	var visit func(t *Test)
+	visit = func(t *Test) {
+		if t == nil || seen[t] {
+			return
+		}
+		seen[t] = true
+		out = append(out, t)
+		for _, d := range t.dependencies {
+			visit(d)
+		}
+	}
+	for _, l := range [][]*Test{TestsCPU[:], TestsTPM[:], TestsFIT[:], TestsMemory[:], TestsACPI[:],
+		TestsTXTReady, TestsTXTLegacy, TestsTXTUEFI, TestsTXTTBoot, TestsBootGuard[:]} {
+		for _, t := range l {
+			visit(t)
+		}
+	}
+	return out
+}
